@@ -407,6 +407,16 @@ func pickNum(r *rand.Rand, h *Host, i int, smallOnly bool) operand {
 		}
 		return operand{text: strconv.FormatInt(v, 10), val: Val{C: "int", I: v}}
 	case 2: // real literal
+		if r.Intn(3) == 0 {
+			// the other spellings the lexer accepts for a real literal: no integer part, exponents, `1.e2`
+			forms := []struct {
+				t string
+				v float64
+			}{{".5", 0.5}, {"0.25", 0.25}, {"1e3", 1000}, {"2.5e-2", 0.025}, {"1.e2", 100}, {".5e1", 5}, {"1E3", 1000}, {"10.0", 10},
+				{"123456789.125", 123456789.125}, {"1e15", 1e15}, {"9007199254740993.0", 9007199254740992}, {"4e-3", 0.004}}
+			x := forms[r.Intn(len(forms))]
+			return operand{text: x.t, val: Val{C: "float", F: x.v}}
+		}
 		f := floatBound[r.Intn(len(floatBound))]
 		if f < 0 && smallOnly {
 			f = -f
